@@ -53,7 +53,7 @@ def main():
         out['imports'] = rc == 0
         if not a.no_tests:
             rc, o = sh('/venv/bin/python -m pytest tests/unit tests/functional -q '
-                       '-p no:cacheprovider --timeout=900 -x -q 2>&1 | tail -3', cwd=scratch)
+                       '-p no:cacheprovider --timeout=900 -x 2>&1 | tail -3', cwd=scratch)
             out['tests_pass'] = ' passed' in o and 'failed' not in o and 'error' not in o.lower()
             out['tests_tail'] = o.strip().splitlines()[-1][:200] if o.strip() else ''
         demo = os.path.join(d, 'demo.py')
